@@ -14,6 +14,10 @@ def run_simple(prop, spec, tier, known_ids, t0, args):
     return G.report(prop, tier, spec['level'], results, spec['rule'], t0, src=spec['src'], model_checking=mc)
 
 PROPS = {
+ 'C05': dict(src='drivers/c05.cpp', level='exploration',
+   technique='exhaustive enumeration of every 8- and 16-bit value (and, thorough, all 2^32 32-bit values) x every legal (offset,bits) pair on the real functions, compared with a bit-at-a-time reference model',
+   text='bitCount/findLSB/findMSB/bitfieldReverse/bitfieldExtract are decided completely for 8- and 16-bit types (and for 32-bit unary functions in the thorough tier), signed and unsigned, scalar and vec1-4; bitfieldInsert completely for 8-bit and over structured lattices x all (offset,bits) otherwise; 64-bit types and the two-operand 32-bit carry/borrow/extended-multiply functions over boundary lattices (stated as such in evidence).',
+   rule='values: INT8_ALL / INT16_ALL complete, INT32_ALL complete (thorough, unary ops) else INT32_EDGE/INT64_EDGE (0, +-2^k, +-2^k+-1, all runs of ones, complements, periodic patterns); (offset,bits): OFFBITS(w) = every pair with offset+bits <= w; vector overloads receive x and three derived companions (~x, rotl3(x), multiplicative hash) in lanes 0..3. Non-trivial = every enumerated case (no precondition rejects any); distinct by construction of the domains.'),
  'C07': dict(src='drivers/c07.cpp', level='exploration',
    technique='exhaustive enumeration of all 2^16 half and all 2^32 float bit patterns on the real conversion code against a bit-level reference model (cross-checked with F16C hardware)',
    text='Complete decision within the platform assumption: every half pattern and (thorough) every float pattern is pushed through every conversion entry point and compared with an exact reference; nearest/overflow/underflow/sign/monotonicity/round-trip are checked on each one. Quick tier covers all halves plus a structured float lattice containing every tie point.',
